@@ -67,6 +67,16 @@ theorem C15_waits_hold_no_lock : lockedWaitViolations accessTable = [] := by dec
 theorem C15_one_critical_section_per_function :
     splitSections lockSections = [] ∧ writesUnderRLock lockSections = [] := by decide +kernel
 
+/-- **No wake-up needs a lock its sleeper holds**: wherever a function waits on a
+    channel with a mutex held (the flow-controlled sender on `windowUpdates`, the
+    revision-zero receiver's `accept` on `closed`, `CloseSend` on `doneSignal`),
+    no function closes or sends on that channel while holding that mutex.  In
+    particular the revision-zero receiver's `close()` closes `closed` before it
+    takes `ingestMu` — the code-level premise of "finishing a stream releases a
+    receive loop parked in the one-slot hand-off". -/
+theorem C15_wakeups_need_no_sleeper_lock :
+    wakeupViolations accessTable = [] ∧ (lockedChanWaits accessTable).length = 3 := by decide +kernel
+
 /-! ### lock order -/
 
 /-- **The lock-order graph of the current sources has no cycle** (so no
